@@ -73,7 +73,8 @@ func legal(p *vdown.Pkt, a, b L, seenMaxTid, seenMaxSid uint8) (string, string) 
 			}
 			why = "tid-fell-mid-frame"
 		default:
-			if kfStart || (p.UpSync && p.Tid <= wanted && b.Tid <= wanted) {
+			// an up-switch point of layer T allows a rise up to T (not beyond it)
+			if kfStart || (p.UpSync && p.Tid <= wanted && b.Tid <= p.Tid) {
 				return "", ""
 			}
 			why = "tid-rose-illegally"
